@@ -8,8 +8,10 @@
      esc_fix   a raw '#' always ends the packet; rsp_unpack undoes the '}' escaping
                                                                   (C35-unescape-terminator.diff)
      retry_fix retry budget is checked before retransmitting      (C35-retry-off-by-one.diff)
-   [orig] is the faithful model of the unfixed code, [fixed] of the repaired code.  The check
-   module (tools/props/c35.py) runs the correspondence against [fixed].
+   [orig] is the faithful model of the unfixed code, [fixed3] of the code with these three repairs
+   (in /repo since 838b710), [fixed] of the code with the four second-round repairs as well (see
+   below).  The check module (tools/props/c35.py) probes the implementation for the second-round
+   repairs and runs the correspondence against the configuration the implementation has.
 
    Threads: the receiver thread (transport -> _process_byte) and the sender thread (sendpkt) are
    interleavings of the labelled transitions [step]; queue.Queue(maxsize=1) is [q] plus the one
@@ -18,9 +20,26 @@
 From PV Require Import Lib.Py.
 Open Scope Z_scope.
 
-Record cfg := { nak_fix : bool; esc_fix : bool; retry_fix : bool }.
-Definition orig : cfg := {| nak_fix := false; esc_fix := false; retry_fix := false |}.
-Definition fixed : cfg := {| nak_fix := true; esc_fix := true; retry_fix := true |}.
+Record cfg := { nak_fix : bool; esc_fix : bool; retry_fix : bool;
+                 full_fix : bool; stale_fix : bool; dec_fix : bool; hex_fix : bool }.
+(* second round of repairs:
+     full_fix  _process_byte never blocks on a full _ack_queue (put_nowait, surplus ack dropped)
+                                                                  (C35-ack-queue-full.diff)
+     stale_fix sendpkt discards acks that arrived while nothing was sent
+                                                                  (C35-stale-ack.diff)
+     dec_fix   decoder decodes the packet as latin-1 (every byte value) instead of ascii
+                                                                  (C35-decoder-non-ascii.diff)
+     hex_fix   rsp_unpack accepts only two hexadecimal check digits (C35-checksum-digits.diff) *)
+Definition orig : cfg :=
+  {| nak_fix := false; esc_fix := false; retry_fix := false;
+     full_fix := false; stale_fix := false; dec_fix := false; hex_fix := false |}.
+(* ppci with the first three fixes (commit 838b710 and later) *)
+Definition fixed3 : cfg :=
+  {| nak_fix := true; esc_fix := true; retry_fix := true;
+     full_fix := false; stale_fix := false; dec_fix := false; hex_fix := false |}.
+Definition fixed : cfg :=
+  {| nak_fix := true; esc_fix := true; retry_fix := true;
+     full_fix := true; stale_fix := true; dec_fix := true; hex_fix := true |}.
 
 (* ---------------------------------------------------------------- Python helpers *)
 (* l[i] with Python's negative indexing; None = IndexError *)
@@ -43,14 +62,15 @@ Definition is_ascii_b (c : Z) : bool := (0 <=? c) && (c <? 128).
 Definition hexchar (d : Z) : Z := if d <? 10 then 48 + d else 55 + d.
 Definition fmt_02X (v : Z) : list Z := [hexchar (v / 16); hexchar (v mod 16)].
 
-(* int(s, 16) for a two-character ASCII string s = [a; b]  (None = ValueError):
-   CPython strips ASCII white space on both sides and accepts a leading sign. *)
+(* int(s, 16) for a two-character string s = [a; b] of code points 0..255 (None = ValueError):
+   CPython strips white space (also U+0085, U+00A0) on both sides and accepts a leading sign. *)
 Definition hexv (c : Z) : option Z :=
   if (48 <=? c) && (c <=? 57) then Some (c - 48)
   else if (65 <=? c) && (c <=? 70) then Some (c - 55)
   else if (97 <=? c) && (c <=? 102) then Some (c - 87)
   else None.
-Definition is_ws (c : Z) : bool := ((9 <=? c) && (c <=? 13)) || (c =? 32).
+Definition is_ws (c : Z) : bool :=
+  ((9 <=? c) && (c <=? 13)) || (c =? 32) || (c =? 133) || (c =? 160).
 Definition int16_2 (a b : Z) : option Z :=
   match hexv a, hexv b with
   | Some x, Some y => Some (16 * x + y)
@@ -59,6 +79,8 @@ Definition int16_2 (a b : Z) : option Z :=
       if is_ws a || (a =? 43) then Some y else if a =? 45 then Some (- y) else None
   | None, None => None
   end.
+
+Definition is_hexdigit (c : Z) : bool := match hexv c with Some _ => true | None => false end.
 
 (* ---------------------------------------------------------------- rsp_pack *)
 (* data.replace(a, "}" + chr(ord(a) ^ 0x20)) for a one-character pattern *)
@@ -94,6 +116,7 @@ Definition rsp_unpack (cf : cfg) (pkt : list Z) : result (list Z) :=
       let crc := sumZ body mod 256 in
       match py_slice_from pkt (-2) with
       | [a; b] =>
+          if hex_fix cf && negb (is_hexdigit a && is_hexdigit b) then Diag 2 else
           match int16_2 a b with
           | None => Diag 2
           | Some crc2 =>
@@ -129,7 +152,7 @@ Definition dec_step (cf : cfg) (st : dstate) (b : Z) : dstate * dout :=
   | DCk1 res => (DCk2 (res ++ [b]), DNone)
   | DCk2 res =>
       let res := res ++ [b] in
-      if forallb is_ascii_b res then (DIdle, DMsg res) else (DDead, DCrash)
+      if dec_fix cf || forallb is_ascii_b res then (DIdle, DMsg res) else (DDead, DCrash)
   | DDead => (DDead, DCrash)
   end.
 
@@ -259,14 +282,16 @@ Definition step (cf : cfg) (s : st) (l : label) : option st :=
   | LSend payload retries =>
       match snd_ s with
       | SIdle =>
+          let q0 := if stale_fix cf then None else q s in
+          let b0 := if stale_fix cf then None else blk s in
           if forallb is_ascii_b payload then
             let wire := rsp_pack payload in
-            Some {| dec := dec s; q := q s; blk := blk s; dead := dead s;
+            Some {| dec := dec s; q := q0; blk := b0; dead := dead s;
                     snd_ := SWait wire retries true; out := out s ++ wire; dlv := dlv s;
                     results := results s; rxlog := rxlog s; rxout := rxout s;
                     sent := S (sent s) |}
           else
-            Some {| dec := dec s; q := q s; blk := blk s; dead := dead s; snd_ := SIdle;
+            Some {| dec := dec s; q := q0; blk := b0; dead := dead s; snd_ := SIdle;
                     out := out s; dlv := dlv s; results := results s ++ [EncodeErr];
                     rxlog := rxlog s; rxout := rxout s; sent := sent s |}
       | SWait _ _ _ => None
@@ -291,6 +316,7 @@ Definition step (cf : cfg) (s : st) (l : label) : option st :=
                           snd_ := snd_ s1; out := out s1; dlv := dlv s1; results := results s1;
                           rxlog := rxlog s1; rxout := rxout s1; sent := sent s1 |}
               | Some _ =>
+                  if full_fix cf then Some s1 else   (* surplus ack dropped *)
                   Some {| dec := dec s1; q := q s1; blk := Some c; dead := dead s1;
                           snd_ := snd_ s1; out := out s1; dlv := dlv s1; results := results s1;
                           rxlog := rxlog s1; rxout := rxout s1; sent := sent s1 |}
@@ -371,7 +397,7 @@ Definition acks_obs (cf : cfg) (retries : Z) (acks : list Z) : list Z :=
   let '(o, n) := acks_run cf retries true acks in
   [match o with Some x => outcome_code x | None => -1 end; Z.of_nat n].
 
-(* every pair of ASCII characters accepted by int(s, 16), with its value *)
+(* every pair of characters 0..255 accepted by int(s, 16), with its value *)
 Definition int16_accepted : list (list Z) :=
   flat_map (fun a => flat_map (fun b => match int16_2 a b with Some v => [[a; b; v]] | None => [] end)
-                              (rangeZ 0 128)) (rangeZ 0 128).
+                              (rangeZ 0 256)) (rangeZ 0 256).
